@@ -940,9 +940,33 @@ static Case gen_b64_decode() {
   uint64_t kind = vg::below(3);
   const std::string& alpha = kind == 2 ? kB64Url : kB64Std;
   std::string text;
-  switch (vg::below(4)) {
+  switch (vg::below(5)) {
     case 0: { // arbitrary text over a mixed alphabet
       text = vg::bytes_from("AQgz09+/-_==*\n ", vg::below(4) == 0 ? vg::below(70) : 4 * vg::below(6));
+      break;
+    }
+    case 4: { // a valid encoding decorated the way lenient decoders accept it: wrapped lines (MIME 76, PEM 64, ...), blanks, a trailing newline
+      std::string enc = ref_b64_encode(gen_data(vg::coin() ? 300 : 1200), kind == 2);
+      std::string brk = vg::pick<const char*>({"\n", "\r\n", "\r", " ", "\t", "\n\n"});
+      switch (vg::below(4)) {
+        case 0: {
+          size_t pitch = vg::coin() ? vg::pick<size_t>({76, 64, 72, 60, 4, 8, 20, 1}) : 1 + vg::below(100);
+          bool last = vg::coin();
+          for (size_t i = 0; i < enc.size(); i += pitch) {
+            text += enc.substr(i, pitch);
+            if (i + pitch < enc.size() || last) text += brk;
+          }
+          break;
+        }
+        case 1: text = enc + brk; break;
+        case 2: text = brk + enc; break;
+        default: {
+          text = enc;
+          size_t at = enc.size() / 4 ? 4 * vg::below(enc.size() / 4 + 1) : 0;
+          text.insert(at, brk);
+          break;
+        }
+      }
       break;
     }
     case 1: { // alphabet characters with padding placed at the end (valid, possibly with non-zero trailing bits)
@@ -1140,7 +1164,30 @@ static void enum_b64_decode(Enum& e) {
       for (char extra : {'A', '=', '*'}) e.exec(Case("b64_decode").N(kind).S(enc + extra));
     }
   }
-  e.complete(cat("all 4-character texts over {A,Q,=,*,-,/} and all 8-character texts over ", e.thorough() ? "{A,Q,=,*,-,/}" : "{A,=,*,-,/}", " for both alphabets") + "; every single-character substitution (256 values x every position), every truncation and one-character extension of valid encodings of 0..48 bytes");
+  // what lenient decoders accept and this one must not ("any position holds a character outside the alphabet"): encodings broken into
+  // lines of every pitch 1..80 by LF / CRLF / CR / blank / tab (with and without a break after the last line), a trailing or leading break
+  for (uint64_t kind : {0, 2}) {
+    for (size_t len : {1, 2, 3, 45, 48, 56, 57, 58, 59, 60, 114, 171, 229}) {
+      if (!e.mine(idx++) || e.stop) continue;
+      std::string enc = ref_b64_encode(vg::expand(0xB64 + len * 3 + kind, len), kind == 2);
+      for (const char* brk : {"\n", "\r\n", "\r", " ", "\t"}) {
+        e.exec(Case("b64_decode").N(kind).S(enc + brk));
+        e.exec(Case("b64_decode").N(kind).S(brk + enc));
+        for (size_t pitch = 1; pitch <= 80; pitch++) {
+          if (pitch >= enc.size()) break;
+          for (int last = 0; last < 2; last++) {
+            std::string t;
+            for (size_t i = 0; i < enc.size(); i += pitch) {
+              t += enc.substr(i, pitch);
+              if (i + pitch < enc.size() || last) t += brk;
+            }
+            e.exec(Case("b64_decode").N(kind).S(t));
+          }
+        }
+      }
+    }
+  }
+  e.complete(cat("all 4-character texts over {A,Q,=,*,-,/} and all 8-character texts over ", e.thorough() ? "{A,Q,=,*,-,/}" : "{A,=,*,-,/}", " for both alphabets") + "; every single-character substitution (256 values x every position), every truncation and one-character extension of valid encodings of 0..48 bytes; encodings of 13 lengths up to 229 bytes wrapped at every pitch 1..80 with LF / CRLF / CR / blank / tab, or with one of them in front or behind");
 }
 
 // dictionary sequences at the start, in the middle and at the end of short texts, doubled, and every ordered pair of them
